@@ -160,6 +160,70 @@ func raceClass(rep string) string {
 	return "data-race:" + strings.Join(fr, "+")
 }
 
+// executeReal ("-family=real"): the real binary (VERIF_REAL_BIN), repeated
+// with fresh caches at GOMAXPROCS 1/2/4/16, must print the same bytes every
+// time, and the same bytes as the simulator's reference run.
+func executeReal(c Case) batch.Result {
+	realBin := os.Getenv("VERIF_REAL_BIN")
+	if realBin == "" {
+		return batch.Result{Infra: "VERIF_REAL_BIN is not set"}
+	}
+	dir := modDir(&c.Mod)
+	defer batch.LockModDir(dir)()
+	if err := c.Mod.Write(dir); err != nil {
+		return batch.Result{Infra: "writing module: " + err.Error()}
+	}
+	defer os.RemoveAll(dir)
+	verifhook.State = c.Mod.Digest()
+	defer verifhook.Forget()
+	res := batch.Result{Counters: map[string]int{}}
+	inv := simlint.Inv{Args: c.args(dir, nil), Dir: dir, Env: c.Env}
+	var fs0 *simos.FS
+	if c.Tests {
+		var err error
+		if fs0, err = simlint.StdBase(batch.Scratch, c.Flags, c.Env); err != nil {
+			return batch.Result{Infra: err.Error()}
+		}
+	}
+	ref, _, rvr := simlint.RunOne(verifsim.Config{Strategy: verifsim.StratFIFO, Procs: 1, StepBound: 3_000_000}, fs0, inv)
+	if cl, d := simlint.Problems(rvr); cl != "" {
+		return batch.Result{Violation: &batch.Violation{Class: cl, Detail: "reference run: " + d}}
+	}
+	var digests []uint64
+	n := 0
+	procList := []int{1, 4, 16, 2}
+	if batch.Tier == "thorough" {
+		procList = []int{1, 2, 4, 16, 3, 8, 16, 1}
+	}
+	for i, procs := range procList {
+		cd, _ := os.MkdirTemp(batch.Scratch, "verif-realcache")
+		out, err := simlint.RunReal(realBin, cd, inv, procs)
+		os.RemoveAll(cd)
+		if err != nil {
+			return batch.Result{Infra: "real binary: " + err.Error()}
+		}
+		n++
+		digests = append(digests, h64(fmt.Sprint(i, strings.ReplaceAll(out.Stdout, dir, "$DIR"))))
+		res.Counters["real_binary_runs"]++
+		if !out.Same(ref) {
+			if i == 0 {
+				return batch.Result{Infra: fmt.Sprintf("simulator and real binary disagree (the harness misrepresents the code):\n%s\nreal stderr: %s", simlint.Diff(ref, out), out.Stderr)}
+			}
+			res.Violation = &batch.Violation{Class: "real-binary:output-differs-between-runs", Detail: fmt.Sprintf("run #%d of the REAL binary (GOMAXPROCS=%d) printed something else than run #0 and the simulator's reference:\n%s\nstderr: %s", i, procs, strings.ReplaceAll(simlint.Diff(ref, out), dir, "$DIR"), out.Stderr)}
+			break
+		}
+		res.Counters["sim_vs_real_agreements"]++
+	}
+	res.Evals = n
+	res.Digests = digests
+	for _, d := range digests {
+		res.Digest = res.Digest*1099511628211 ^ d
+	}
+	res.Trivial = ref.Stdout == ""
+	res.Sample = map[string]any{"mode": "real", "module": fmt.Sprintf("%d packages", len(c.Mod.Pkgs)), "flags": c.Flags, "real_runs": n}
+	return res
+}
+
 func executeRace(c Case) batch.Result {
 	dir := modDir(&c.Mod)
 	defer batch.LockModDir(dir)()
@@ -248,6 +312,9 @@ func executeRace(c Case) batch.Result {
 }
 
 func execute(c Case, info *execInfo) batch.Result {
+	if mode == "real" {
+		return executeReal(c)
+	}
 	if mode != "" {
 		return executeRace(c)
 	}
@@ -384,7 +451,7 @@ func (engine) Generate(seed uint64, index int, tier string) json.RawMessage {
 		nsched = 80
 	}
 	tests := r.P(300)
-	if mode != "" {
+	if mode != "" && mode != "real" {
 		// race tiers use the real file system and have no std base layer:
 		// a module with tests would re-analyse the standard library under the
 		// race detector in every run (tens of seconds)
@@ -619,7 +686,7 @@ func main() {
 		}
 	}
 	os.Args = append(os.Args[:1], rest...)
-	if mode != "" {
+	if mode != "" && mode != "real" {
 		batch.WorkerEnv = batch.RaceEnv
 	}
 	batch.Main(engine{})
